@@ -60,7 +60,7 @@ func runBubble[C any](kind string, c C, what string, f func()) {
 	select {
 	case <-done:
 	case <-timer.C:
-		vp.RecordFailure(kind, c, fmt.Errorf("the scenario did not reach quiescence within 30 s of real time (normally milliseconds): %s", what))
+		vp.RecordFailure(kind, c, fmt.Errorf("HANG: the scenario did not reach quiescence within 30 s of real time (normally milliseconds): %s", what))
 		fmt.Println("VP-HANG", kind)
 		os.Exit(1)
 	}
